@@ -6,7 +6,7 @@ Decided (structural, format pairing):
         edge serialize_bytes(as_bytes) / deserialize_bytes(visitor taking exactly 32 bytes).
  R2 K2  visit_bytes converts with try_into and errors on a length mismatch; visit_seq errors
         when the sequence ends early; visit_str goes through FromStr.
- R3 K5  Display prints to_base58(); FromStr/decode use base58 String32::decode; to_base58 encodes
+ R3 K5  Display prints to_base58() unchanged (no trim/slice/replace in between); FromStr/decode use base58 String32::decode; to_base58 encodes
         the `bytes` field.
  R4 K4  no may-panic site reachable from FromStr / Deserialize / visitors / decode / Display.
 Not decided: bijectivity of spideroak-base58's 32-byte codec (external, trusted)."""
@@ -117,6 +117,16 @@ def run(F, rep, tier):
     # R3
     disp = one(F, "fmt::Display", "fmt")
     rep.check(any(c.name == "to_base58" for c in disp.calls), "Display|base58", "K5 sibling agreement", "Display prints to_base58()", site=disp.site())
+    # ... unchanged: between to_base58() and the formatter there is no call that rewrites the text (trim, strip,
+    # replace, slice, case change, truncate): every character of the 32-byte encoding is a significant digit
+    PLUMBING = {"to_base58", "new", "new_display", "new_debug", "new_v1", "new_const", "write_fmt", "write_str", "fmt", "deref", "as_str", "as_ref", "borrow", "from", "into",
+                "pad", "to_string", "as_bytes", "from_utf8_unchecked", "from_utf8", "unwrap", "expect", "branch"}
+    rewrites = sorted({c.name for c in disp.calls if c.name and c.name not in PLUMBING and not c.exp
+                       and (c.path or "").startswith(("core::str", "alloc::str", "alloc::string", "core::slice", "alloc::vec", "core::ops::index"))})
+    rep.check(not rewrites, "Display|prints-the-whole-encoding", "K5 sibling agreement",
+              "Display writes to_base58()'s text as it is",
+              "Display for Id rewrites the base58 text before printing it (%s): the printed text no longer decodes to the same id (FromStr / the human-readable serde visitor parse it)" % ", ".join(rewrites),
+              disp.site())
     fs = one(F, "FromStr", "from_str")
     dec = F.fn("aranya_id::id::Id::decode")
     rep.check(any(c.is_("Id::decode") for c in fs.calls), "FromStr|decode", "K5 sibling agreement", "FromStr delegates to Id::decode", site=fs.site())
